@@ -69,6 +69,12 @@ pub fn ser(te: &TE) -> J {
 }
 
 pub fn parse(j: &J) -> Result<TE, String> {
+    parse_map(j, &tv)
+}
+
+/// As `parse`, with the numeric variable references translated by `tv` (for callers whose variables are not numbered
+/// from zero).
+pub fn parse_map(j: &J, tv: &dyn Fn(u64) -> TypeVariable) -> Result<TE, String> {
     if let Some(s) = j.as_str() {
         return match s {
             "any" => Ok(TE::Any),
